@@ -298,6 +298,105 @@ def mon_C01(md_lib, cfg, ops, impl, stats, r=None):
             prev_snap = sn
     return out
 
+
+# ---- the specification function of Spec.v as a direct oracle ---------------------------------------------
+def _plain(op):
+    return (op[0] == "start" and not op[2]) or (op[0] == "stop" and not op[1]) or (op[0] == "process" and not op[4] and op[1] != 0)
+
+def _bracketed(seg):
+    started = False
+    for op in seg:
+        if op[0] == "start":
+            if started:
+                return False
+            started = True
+        elif op[0] == "stop":
+            if not started:
+                return False
+            started = False
+        elif not started:
+            return False
+    return True
+
+def mon_spec(md_lib, cfg, ops, impl, stats, r=None):
+    """for definitions in the core fragment (Spec.coreb, proved to imply Spec.core) and histories of start / stop /
+    process_event whose behaviours only observe: the implementation's trace must be the specification function of
+    Spec.v, run directly (extracted spec_trace; neither the engine model nor anything regenerated from the headers is
+    involved): same behaviour invocations, order and arguments, same reported configuration after every operation,
+    result code with the specified handled / rejected meaning"""
+    import subprocess, corr
+    base = cfg.split(":")[0].split("@")[0].replace("+circ", "")
+    if "@" in cfg:
+        return []
+    mp11 = base.startswith("mp11")
+    if base == "back11" and any(m["irows"] or any(st["sirows"] for st in m["states"]) for _, m in msmgen.walk(md_lib)):
+        return []                      # finding F7 separates back11 where internal tables exist
+    if mp11 and md_lib["hist"] != "none":
+        return []
+    pol = corr_policy(cfg)
+    out = []
+    # segments between resets (each starts on a fresh object)
+    segs, cur, start = [], [], 0
+    for k, op in enumerate(ops):
+        if op[0] == "reset":
+            segs.append((start, cur)); cur, start = [], k + 1
+        else:
+            cur.append(op)
+    segs.append((start, cur))
+    md = {"parents": [None] * 16, "root": md_lib}
+    for start, seg in segs:
+        if not seg or not all(_plain(o) for o in seg) or (mp11 and not _bracketed(seg)):
+            continue
+        if any(k >= len(impl) for k in range(start, start + len(seg))):
+            continue
+        if any(("ESC" in impl[start + i]) or any(l.startswith("BAD") for l in impl[start + i]) for i in range(len(seg))):
+            continue
+        inp = msmgen.sx_mdef(md, md_lib) + "\n" + "\n".join(msmgen.sx_op(o) for o in seg) + "\n"
+        pr = subprocess.run([corr.MODEL, "spec", "1" if mp11 else "0", str(pol)], input=inp, capture_output=True, text=True, timeout=60)
+        if pr.returncode != 0 or pr.stdout.startswith("NOTCORE"):
+            stats.dist[("spec oracle", "outside the core fragment")] += 1
+            continue
+        blocks = [b.split("\n") for b in pr.stdout.split("--\n") if b.strip()]
+        blocks = [[l for l in b if l] for b in blocks]
+        stats.dist[("spec oracle", "histories compared")] += 1
+        for i, sb in enumerate(blocks):
+            if i >= len(seg):
+                break
+            ib = impl[start + i]
+            s_items = [l for l in sb if parse(l)]
+            i_items = [l for l in ib if parse(l)]
+            s_snap = [l for l in sb if l.startswith("SNAP ")]
+            i_snap = [l for l in ib if l.startswith("SNAP ")]
+            stats.nontrivial.add(("spec", tuple(s_items[:3]), len(s_items)))
+            if s_items != i_items:
+                j = next((x for x in range(max(len(s_items), len(i_items))) if x >= len(s_items) or x >= len(i_items) or s_items[x] != i_items[x]), 0)
+                out.append("op %d %s: behaviour invocations differ from the specification (Spec.v) at position %d: library %s, specified %s"
+                           % (start + i, seg[i][0], j, i_items[j] if j < len(i_items) else "nothing more", s_items[j] if j < len(s_items) else "nothing more"))
+                break
+            if s_snap != i_snap:
+                out.append("op %d %s: reported configuration %s, specified %s" % (start + i, seg[i][0], i_snap, s_snap))
+                break
+            rh = [l for l in sb if l.startswith("RH ")]
+            if rh:
+                _, h, rj = rh[0].split()
+                code = result_of(ib)
+                okc = (code in (1, 3)) if h == "1" else (code == (2 if rj == "1" else 0))
+                if not okc:
+                    out.append("op %d process: result code %s, specified handled=%s rejected=%s" % (start + i, code, h, rj))
+                    break
+        if out:
+            break
+    return out
+
+def both(*mons):
+    def m(md_lib, cfg, ops, impl, stats, r=None):
+        out = []
+        for f in mons:
+            if f is not None:
+                out += f(md_lib, cfg, ops, impl, stats, r)
+        return out
+    return m
+
 # ---- C03 ---------------------------------------------------------------------------------------------
 def mon_C03(md_lib, cfg, ops, impl, stats, r=None):
     out = []
